@@ -124,6 +124,37 @@ def directed_prefixes(rng: random.Random, pool: list) -> list[list[dict]]:
     ]
 
 
+def repeated_simplification(rng: random.Random, pool: list) -> list[dict]:
+    """the same objects simplified again and again, through every entry point that simplifies:
+    flags left by one run decide which nodes the next run touches"""
+    g = gen.Gen(rng, floats_only=True)
+    names = sorted(set().union(*(e._variable_names for e in pool))) or ["x"]
+    P = wire.point(g.point(names))
+    ops = []
+    for i, e in enumerate(pool):
+        vs = sorted(e._variable_names) or ["x"]
+        for k in range(3):
+            ops.append({"op": "normalize", "i": i, "p": P, "x": vs[k % len(vs)]})
+        ops.append({"op": "diff_early_at", "i": i, "p": P, "x": vs[0]})
+        ops.append({"op": "partial_early", "i": i, "p": P, "x": vs[-1]})
+        ops.append({"op": "normalize", "i": i, "p": P, "x": "w"})
+        ops.append({"op": "at", "i": i, "p": P, "x": vs[0]})
+    return ops
+
+
+def sum_pool(rng: random.Random) -> list:
+    """pools built the way users write them: operator chains give nested binary sums and products"""
+    g = gen.Gen(rng, names=("x", "y", "z"), floats_only=True)
+    x, y, z, w = X.Variable("x"), X.Variable("y"), X.Variable("z"), X.Variable("w")
+    a = x + y + z
+    b = (x * y * z) * w
+    c = X.Sine(a) * w
+    d = X.NthPower(x + X.Constant(1.0) + x, 2)
+    e = (a - g.expr(1)) / (b + X.Constant(3.0))
+    f = X.Add(X.Add(g.expr(1), g.expr(1)), X.Multiply(X.Multiply(x, g.expr(1)), y), a)
+    return rng.sample([a, b, c, d, e, f], 3)
+
+
 class Runner:
     """executes ops on a pool; persistent Partial objects live in ``pobjs``"""
 
